@@ -1,5 +1,7 @@
 """Shared by C08 / C09 (family `alphwatch`): overlay, harness run, verdict handling with clause ownership."""
 import os
+import shutil
+import subprocess
 import vlib
 
 OVERLAY = {
@@ -30,9 +32,37 @@ def owned_by(clause, pid):
     return clause in SHARED_CLAUSES or owner(clause) == pid
 
 
+def private_work(ctx):
+    """Give this run its own scratch directory (.work/<ID>.<os pid>).  vlib's Ctx wipes and reuses .work/<ID>, so two
+    concurrent `./check <ID>` runs would delete / overwrite each other's overlay, case file and verdicts mid-run (seen as
+    truncated case files and spurious diffs when the checks were run in parallel under load)."""
+    ctx.work = os.path.join(vlib.WORK, "%s.%d" % (ctx.pid, os.getpid()))
+    shutil.rmtree(ctx.work, ignore_errors=True)
+    os.makedirs(ctx.work, exist_ok=True)
+
+
+def drive(ctx, family, cases_path, timeout=3600):
+    """ctx.drive on a private copy of the driver binary, taken under the lake lock: a concurrent `lake build` of another
+    check relinks the shared binary in place."""
+    src = os.path.join(vlib.BIN, "drv_" + family)
+    exe = os.path.join(ctx.work, "drv_" + family)
+    with vlib.Lock("lake"):
+        if not os.path.exists(src):
+            ctx.broken.append(("tie", "driver", "drv_%s binary missing (lake build failed?)" % family))
+            return []
+        shutil.copy2(src, exe)
+    with open(cases_path) as f:
+        p = subprocess.run([exe], stdin=f, stdout=subprocess.PIPE, stderr=subprocess.STDOUT,
+                           text=True, errors="replace", timeout=timeout)
+    open(cases_path + ".verdict", "w").write(p.stdout)
+    if p.returncode != 0:
+        ctx.broken.append(("tie", "driver:" + family, "driver exited %d: %s" % (p.returncode, p.stdout[-300:])))
+    return p.stdout.split("\n")
+
+
 def judge(ctx, family, cases_path):
     """vlib.Ctx.judge with one difference: a Spec clause owned by the sibling property is counted, not reported."""
-    lines = ctx.drive(family, cases_path)
+    lines = drive(ctx, family, cases_path)
     cases = {}
     with open(cases_path) as f:
         for ln in f:
@@ -83,8 +113,17 @@ def run_alphwatch(ctx, part):
         return None
     kinds, samples, n_lines = {}, [], 0
     seen_ids = set()
+    last = ""
     with open(src) as f:
         for ln in f:
+            last = ln
+    if last.strip() != "end end":
+        ctx.broken.append(("tie", "go-harness", "case file is incomplete (last line: %r)" % last[:120]))
+        return None
+    with open(src) as f:
+        for ln in f:
+            if ln.startswith("end "):
+                continue
             n_lines += 1
             parts = ln.split(" ", 2)
             if len(parts) < 2 or parts[1] in seen_ids:
@@ -111,4 +150,6 @@ def run_alphwatch(ctx, part):
         "block heights < 2^31-256 and millisecond timestamps < 2^63-2^23 (InRange); outside that range only model/implementation agreement (with Go wrap-around) is checked",
         "wall clock: block timestamps are generated >= 10 minutes away from every confirmation floor, so the clock read inside process()/handleObsvRequest cannot race the comparison; exact boundaries are exercised through isEventConfirmed directly",
     ]
+    if not ctx.broken and not ctx.spec_violations:
+        shutil.rmtree(ctx.work, ignore_errors=True)     # keep the scratch directory only when something has to be looked at
     return kinds
